@@ -120,6 +120,16 @@ def _cds_case(repo, it, S, spec):
         got = [[to_chrom(p) for p in loc_positions(c)] for c in v]
         if got != want:
             out.append(("chunk codons " + cat, f"{desc}: chunk-relative codons (in chromosome coordinates) = {got}; whole-chromosome codons fully inside the chunk: {want}", q("chunk_relative_codon_locations").qual))
+    # the chromosome-level answers of the same object once its chunk-relative answers exist (they are memoised side by side)
+    if repo.has_fn(f"{CDS}.num_chunk_relative_codons"):
+        run(it, q("num_chunk_relative_codons"), [], {}, part)
+    for m, wantv in (("num_codons", len(codons)), ("chromosome_codon_locations", codons)):
+        n += 1
+        k, v = run(it, q(m), [], {}, part)
+        gotv = v if m == "num_codons" or k != "ok" else [loc_positions(c) for c in v]
+        if (k == "ok" and gotv != wantv) or (k != "ok" and codons):
+            out.append((f"{m} after the chunk-relative codons were listed", f"{desc}: {m} on the chunk-built twin, asked again after "
+                        f"chunk_relative_codon_locations / num_chunk_relative_codons -> {k}:{gotv}; the whole chromosome has {wantv}", q(m).qual))
     n += 1
     part2 = mk_cds(it, exons, S[sn], frames, pk)
     k, v = run(it, q("extract_sequence"), [], {}, part2)
@@ -243,6 +253,27 @@ def _tx_case(repo, it, S, spec):
     for fld in ("start", "end", "bin"):
         if whole.fields.get(fld) != part.fields.get(fld):
             out.append((fld, f"{desc}: .{fld} is {part.fields.get(fld)} on the chunk-built twin, {whole.fields.get(fld)} on the chromosome", f"{cls}.__init__"))
+    if kind.startswith("ctx"):
+        # whether the transcript is coding, and where its CDS lies on the chromosome, do not depend on the chunk - also when the chunk
+        # holds only UTR, intron or nothing of the transcript
+        def shown(kv):
+            k_, v_ = kv
+            if k_ != "ok":
+                return (k_, v_)
+            if isinstance(v_, Obj):
+                return (k_, blocks_of(v_))
+            if isinstance(v_, (list, tuple)) or hasattr(v_, "__iter__") and not isinstance(v_, (str, dict)):
+                return (k_, [blocks_of(b) if isinstance(b, Obj) else b for b in v_])
+            return (k_, v_)
+        for m in ("is_coding", "cds_size", "cds_start", "cds_end", "cds_blocks", "cds_location"):
+            if not repo.has_fn(f"{cls}.{m}"):
+                continue
+            n += 1
+            fm = repo.fn(f"{cls}.{m}")
+            a, b = shown(run(it, fm, [], {}, whole)), shown(run(it, fm, [], {}, part))
+            if a != b:
+                out.append((f"{m} of a coding transcript", f"{desc}: {m} is {b[0]}:{b[1]} on the chunk-built twin and {a[0]}:{a[1]} on the "
+                            f"chromosome-built twin", fm.qual))
     n += 1
     k, v = run(it, repo.fn("gene.interval:AbstractFeatureInterval.chromosome_location"), [], {}, part)
     if k != "ok" or sorted(blocks_of(v)) != sorted(exons) or strand_of(v).name != sn:
